@@ -131,3 +131,35 @@ pub fn k_elf_iter_order_32() {
     }
     assert!(expect == 3);
 }
+
+// ---- C19: provided Iterator methods (nth / skip / count / last) agree with repeated next()
+#[kani::proof]
+#[kani::unwind(5)]
+pub fn k_elf_iter_provided_methods() {
+    let e = AlignedBytes(kani::any::<[u8; 192]>());
+    let b = &e.0;
+    let mk = || ElfSectionIter { current_section: b.as_ptr(), remaining_sections: 3, entry_size: 64,
+        string_section: b.as_ptr(), _phantom_data: PhantomData };
+    // oracle: indices of the in-use entries, in order
+    let used = [spec_type(le32(b, 4)) != ElfSectionType::Unused, spec_type(le32(b, 68)) != ElfSectionType::Unused,
+                spec_type(le32(b, 132)) != ElfSectionType::Unused];
+    let mut idx = [3usize; 3];
+    let mut c = 0;
+    let mut j = 0;
+    while j < 3 {
+        if used[j] {
+            idx[c] = j;
+            c += 1;
+        }
+        j += 1;
+    }
+    assert!(mk().count() == c);
+    let n: usize = kani::any();
+    kani::assume(n <= 3);
+    let got = mk().nth(n).map(|s| s.inner as usize);
+    let want = if n < c { Some(b.as_ptr() as usize + idx[n] * 64) } else { None };
+    assert!(got == want);
+    assert!(mk().skip(c).next().is_none());
+    assert!(mk().last().map(|s| s.inner as usize) == if c > 0 { Some(b.as_ptr() as usize + idx[c - 1] * 64) } else { None });
+    kani::cover!(c == 2 && n == 1 && !used[0]);
+}
